@@ -14,6 +14,7 @@ import (
 
 	"verif/harness/fw"
 	"verif/harness/oracle/bech32m"
+	"verif/harness/prop/bechscan"
 )
 
 var residuesPad = []int{2, 4, 5, 7} // data symbol counts mod 8 that leave 1..4 padding bits
@@ -47,6 +48,10 @@ func init() {
 }
 
 func render(class string, key []byte) interface{} {
+	if class == "acceptset" {
+		p := fw.Unpack(key)
+		return map[string]interface{}{"base_string": bechscan.Base(fw.GetU64(p[0])), "mode": map[byte]string{0: "targeted constants", 1: "chunk of 2^22 checksum values"}[p[1][0]], "chunk": fw.GetU32(p[2])}
+	}
 	return map[string]interface{}{"string": fmt.Sprintf("%+q", string(key)), "hex": fw.Hex(key), "length": len(key)}
 }
 
@@ -66,7 +71,61 @@ func hasNonASCII(s string) bool {
 	return false
 }
 
+// judgeAcceptSet scans checksum values of one valid string (see package bechscan): Decode must
+// accept exactly the one string whose checksum polymod is 1.
+func judgeAcceptSet(key []byte, o *fw.Obs) {
+	p := fw.Unpack(key)
+	seed, mode, chunk := fw.GetU64(p[0]), p[1][0], fw.GetU32(p[2])
+	o.Nontrivial()
+	b := bechscan.Base(seed)
+	var next func() uint32
+	if mode == 0 {
+		list := bechscan.Targeted()
+		i := 0
+		next = func() uint32 {
+			if i >= len(list) {
+				return 0
+			}
+			i++
+			return list[i-1]
+		}
+	} else {
+		d, end := chunk<<22, (chunk+1)<<22
+		next = func() uint32 {
+			if d == 0 {
+				d = 1
+			}
+			if d >= end {
+				return 0
+			}
+			d++
+			return d - 1
+		}
+	}
+	var acc []uint32
+	var tried int64
+	if !o.Try("bech32.Decode", func() {
+		if _, _, err := bech32.Decode(b); err != nil {
+			o.Fail("verdict", "Decode(%q): the valid string is rejected: %v", b, err)
+			return
+		}
+		acc, tried = bechscan.Scan(b, next, func(s string) bool { _, _, err := bech32.Decode(s); return err == nil })
+	}) {
+		return
+	}
+	o.Add("acceptance-set scan: checksum values tried", tried)
+	o.Count("acceptance-set scan cases")
+	for _, d := range acc {
+		o.Fail("verdict", "Decode accepts %s, a string with an invalid checksum (it differs from the valid string %q in the checksum characters only)", bechscan.Describe(b, d), b)
+		return
+	}
+}
+
 func judge(class string, key []byte, o *fw.Obs) {
+	if class == "acceptset" {
+		judgeAcceptSet(key, o)
+		return
+	}
 	s := string(key)
 	mhrp, mdata, reason := bech32m.DecodeBytesReason(s)
 	mok := reason == bech32m.OK
@@ -410,6 +469,18 @@ func shortUnicode(g *fw.Gen) {
 
 func gen(g *fw.Gen) {
 	r := g.Rng
+	// acceptance-set scan: targeted constants on every shard, one random 2^22 chunk of checksum values per shard
+	// (quick) or all 256 chunks = every one of the 2^30 checksum values of one string (thorough)
+	g.Emit("acceptset", fw.Pack(fw.U64(r.Uint64()), []byte{0}, fw.U32(0)))
+	if g.Quick() {
+		g.Emit("acceptset", fw.Pack(fw.U64(r.Uint64()), []byte{1}, fw.U32(uint32(r.Intn(256)))))
+	} else {
+		for c := 0; c < 256; c++ {
+			if g.Own(c) {
+				g.Emit("acceptset", fw.Pack(fw.U64(uint64(g.Seed)+77), []byte{1}, fw.U32(uint32(c))))
+			}
+		}
+	}
 	// every symbol count 0..84, several times over
 	reps := g.Pick(600, 54000)
 	idx := 0
